@@ -56,8 +56,9 @@ var wrongTypeError = respErrorString("WRONGTYPE Operation against a key holding 
 
 type (
 	dataStoreCommand struct {
-		id uint32 // command counter
-		ds *dataStore
+		id      uint32      // command counter
+		ds      *dataStore
+		waiting *wakeSignal // set while the command's client is registered as waiting for a list
 	}
 
 	bitfieldOperation int
@@ -104,7 +105,7 @@ func (dsc *dataStoreCommand) unlock() {
 }
 
 func (dsc *dataStoreCommand) unlockAndUnblock(uk *unblockKey) {
-	dsc.ds.unblockListUnlocked(uk.keyName, uk.elements)
+	dsc.ds.unblockListUnlocked(uk.keyName, uk.elements, dsc.waiting)
 	if !atomic.CompareAndSwapUint32(&dsc.ds.multiLock, dsc.id, dsc.id) {
 		// release the single lock
 		dsc.ds.mu.Unlock()
